@@ -760,7 +760,31 @@ def c06_13(ctx):
     return res
 
 
+def c06_17(ctx):
+    """MEMO: no method of the modules this property is anchored in answers from a value remembered from an earlier argument or an
+    earlier state of the object (confirmed caches of the reference tree: sa/memo.py CONFIRMED_CACHES)"""
+    from sa.memo import cache_obligation
+    return cache_obligation(ctx, ["tx", "script", "op", "witness", "taproot", "pecc"], "a verification verdict or digest computed once would be reused for another input, script or signature")
+
+
+def c06_18(ctx):
+    """SET-ORDER: no ordered result (list, serialisation, yielded sequence) of the modules this property is anchored in takes its
+    order from the iteration order of a set"""
+    from sa.setorder import setorder_obligation
+    return setorder_obligation(ctx, ["tx", "script", "op", "witness", "taproot", "pecc"], "the same inputs give different output from run to run")
+
+
+def c06_19(ctx):
+    """SHARED necessary conditions over the modules this property is anchored in: FALSY-DEFAULT, MUTABLE-DEFAULT, IDENTITY, ALIAS,
+    CTOR-FORWARD (sa/shared.py)"""
+    from sa.shared import shared_obligations
+    return shared_obligations(ctx, ["tx", "script", "op", "witness", "taproot", "pecc"], "the result would depend on something other than the arguments and the object's current state")
+
+
 OBLIGATIONS = [
+    ("C06.19", "SHARED", c06_19),
+    ("C06.18", "SET-ORDER", c06_18),
+    ("C06.17", "MEMO", c06_17),
     ("C06.11", "RANGE accept-set", c06_11),
     ("C06.1", "GUARD per-iteration", c06_1),
     ("C06.2", "GUARD polarity", c06_2),
